@@ -11,6 +11,10 @@ CHECKS = {
    text="TLC exhausts every interleaving of registrations (with repeats), clock ticks, timer fires and consumer reads of specs/Deadliner over a small duty universe (equal deadlines, deadline 0, an exempt duty) for 10 safety invariants, 2 action properties and liveness under fairness; TLC-generated and seeded random schedules are executed on the real core.Deadliner under a fake clock and every recorded trace is validated step by step against the same spec (invariants evaluated at every step).",
    note="Trusted: TLC, clockwork.FakeClock as the time source, the executor's quiescence protocol (sentinel Add + waiter accounting). Exhaustive only within the stated constants.",
    technique="TLA+ spec (Deadliner.tla) model-checked with TLC; TLC-generated + random schedules replayed on core.Deadliner; trace validation with TLC"),
+ "C19": dict(level=MC, design="6/C19", engine="MultiClient",
+   text="TLC exhausts all outcome vectors (ok / each unavailability class / other errors / unsuccessful output / hang) and all completion orders of P<=3 primaries and B<=2 fallbacks for provide- and submit-style calls with caller cancellation anywhere (safety invariants plus SuccessIfAny/CancelPrompt/Terminates under fairness, two control configs that must fail); enumerated, TLC-simulated and random schedules are executed on the real eth2wrap multi client over gated mock nodes inside a testing/synctest bubble (exact quiescence, fake time) and every trace is validated against the spec.",
+   note="Trusted: TLC; testing/synctest quiescence; mock nodes honour their context; error values are built as go-eth2-client produces them. Fallback decision on mixed failure classes is left nondeterministic (the statement is silent).",
+   technique="TLA+ spec (MultiClient.tla) model-checked with TLC incl. liveness; schedules replayed on eth2wrap.NewMultiForT; TLC trace validation"),
 }
 NA = {
  "C14": "byte-level codec fidelity / crash-freedom on arbitrary bytes: no state machine, interleaving or protocol for a TLA+ specification to enumerate; the family's own guidance places encode/decode fidelity outside its reach (DESIGN.md section 7)",
